@@ -29,6 +29,8 @@ def pp(t, ind=0, out=None):
     if t == "NoneNode":
         out.append(" " * ind + "NoneNode")
         return out
+    if len(t) != 4:
+        out.append(" " * ind + "?? %r" % (t,)); return out
     _, k, scs, fs = t
     out.append(" " * ind + "%s %s" % (KN.get(k, k), " ".join(sc(s) for s in scs)))
     for f in fs:
@@ -44,11 +46,18 @@ def pp(t, ind=0, out=None):
 def main():
     c = json.loads(sys.argv[1]) if not os.path.exists(sys.argv[1]) else json.load(open(sys.argv[1]))
     c = c.get("case", c)
-    im = C03.run_impl([c])[0]
     ev = {e: 1000 + i for i, e in enumerate(EV)}
-    K = "[" + "; ".join(str(ev[e]) for e in c["e1"]) + "]"
-    o1, o2 = im["configs"][0]["out_tree"], im["configs"][1]["out_tree"]
-    txt = C03.PROJ_HEADER + "Definition a := %s.\nDefinition b := %s.\nEval vm_compute in (erasek %s a).\nEval vm_compute in (erasek %s b).\n" % (o1, o2, K, K)
+    if "stack" in c:
+        from props import C05
+        ti = int(sys.argv[2]) if len(sys.argv) > 2 and sys.argv[2].isdigit() else 0
+        im = C05.run_impl([c])[0]
+        K = "[" + "; ".join(str(ev[e]) for e in c["stack"][ti]["events"]) + "]"
+        o1, o2 = im["configs"][1 + ti]["out_tree"], im["configs"][0]["out_tree"]
+    else:
+        im = C03.run_impl([c])[0]
+        K = "[" + "; ".join(str(ev[e]) for e in c["e1"]) + "]"
+        o1, o2 = im["configs"][0]["out_tree"], im["configs"][1]["out_tree"]
+    txt = C03.PROJ_HEADER + "Set Printing Depth 1000000.\n" + "Definition a := %s.\nDefinition b := %s.\nEval vm_compute in (erasek %s a).\nEval vm_compute in (erasek %s b).\n" % (o1, o2, K, K)
     rc, out = lib.coq_eval("dbg_proj", txt)
     vals = lib.parse_marked(out)
     ts = []
